@@ -222,7 +222,9 @@ def _not_wrapped(f, fname):
             par = getattr(n, 'parent', None)
             if isinstance(par, ast.Call) and par.func is n:
                 continue
-            if isinstance(par, ast.Call) and isinstance(par.func, ast.Attribute) and dotted(par.func.value) == 'self':
+            if isinstance(par, ast.Call) and (dotted(par.func) or '').rpartition('.')[2] != 'partial':
+                continue        # handed on as an argument: followed by _func_escapes / _command_units
+            if not isinstance(par, (ast.Assign, ast.Call, ast.IfExp, ast.NamedExpr)):
                 continue
             raise AnchorMissing(f'the bound command function `{fname}` is re-bound or wrapped in {f.qualname} (`{src(enclosing_stmt(n))[:80]}`): '
                                 'its calls are not followed')
